@@ -102,13 +102,26 @@ func main() {
 		}
 		add([]string{"d"}, progs("L", "T"), false, vsched.Config{P: 1, Preempt: fine, MaxSteps: 5000})
 		add([]string{"e"}, progs("L", "T"), true, vsched.Config{P: 0, F: 1, Preempt: fine, MaxSteps: 5000})
+		// Unlock exactly when the renewal timer fires (Lh), with a waiter that takes over and the first holder coming
+		// back: a renewal of the finished tenure must never touch the record of the next holder
+		for _, tn := range []string{"a", "b"} {
+			for _, x := range progs("LhT") {
+				for _, y := range progs("Lh", "L") {
+					if tn == "b" && y.String() == "L" {
+						continue
+					}
+					sc := &lockh.Scenario{Topo: lockh.Topologies[tn], Progs: []lockh.Prog{x, y}, Shutdown: -1, Lease: lease}
+					jobs = append(jobs, job(sc, vsched.Config{P: 2, Preempt: fine, MaxSteps: 5000}))
+				}
+			}
+		}
 		// the same lock over the Redis backend (miniredis): every Redis command is a scheduling point
 		storage = "redis"
 		// (no cancellable contexts here: go-redis runs a command of a cancellable context on a goroutine of its own,
 		// outside the controlled scheduler)
 		add([]string{"a", "b", "c"}, progs("L", "T", "LL", "TT", "LT"), false, vsched.Config{P: 1, Preempt: fine, MaxSteps: 20000})
 		storage = ""
-		bounds["tiers"] = "Redis backend: {L,T,LL,TT,LT}^2 P<=1 at Redis-command granularity; in-memory: 2 threads {L,T,C,X}^2 P<=2; {L,T,C,LL,Lh,TT}^2 P<=1; faults F<=1 with P<=1 on {L,T,C,LT,LL}^2, on Lh x {L,T,LT} and with P=0 on 3 providers {L,T}^3; 3 threads {L,T}^3 P<=1"
+		bounds["tiers"] = "renewal-races-unlock family LhT x {Lh,L} P<=2; Redis backend: {L,T,LL,TT,LT}^2 P<=1 at Redis-command granularity; in-memory: 2 threads {L,T,C,X}^2 P<=2; {L,T,C,LL,Lh,TT}^2 P<=1; faults F<=1 with P<=1 on {L,T,C,LT,LL}^2, on Lh x {L,T,LT} and with P=0 on 3 providers {L,T}^3; 3 threads {L,T}^3 P<=1"
 		budget = 4 * time.Minute
 	} else {
 		add(two, core, false, vsched.Config{P: 3, Preempt: fine, MaxSteps: 5000})
